@@ -137,4 +137,80 @@ Proof.
   rewrite norm_schema_eq. reflexivity.
 Qed.
 
+(* ---- the fragment is exact for trees ---- *)
+Definition reads_back_only_if (s : nschema) : Prop :=
+  forall path name m, write_schema env path name s = Ok m ->
+    read_tree env path m = Ok (norm_schema env path name s) -> tree_rt s = true.
+
+Lemma rt_props_inner here fields :
+  forallb rt_ok (map (resolve here) fields) = true ->
+  (forall f s, In f fields -> f = NF (nf_prop f) (Some s) -> tree_rt s = true) ->
+  rt_inner fields = true.
+Proof.
+  induction fields as [|[d [s|]] r IH]; intros Hp Hs; [reflexivity| |]; cbn [map forallb] in Hp;
+    apply andb_true_iff in Hp as [Hd Hr]; cbn [rt_inner].
+  - rewrite (rt_ok_resolve here (NF d (Some s))) in Hd. cbn [nf_prop] in Hd. rewrite Hd.
+    rewrite (Hs (NF d (Some s)) s (or_introl eq_refl) eq_refl). cbn [andb].
+    apply IH; [exact Hr|]. intros f s0 Hin Hf. apply (Hs f s0); [right; exact Hin|exact Hf].
+  - cbn [resolve] in Hd. rewrite Hd. cbn [andb].
+    apply IH; [exact Hr|]. intros f s0 Hin Hf. apply (Hs f s0); [right; exact Hin|exact Hf].
+Qed.
+
+Lemma inner_only_if here : forall fields ms,
+  Forall (fun f => match f with NF _ (Some s) => reads_back_only_if s | NF _ None => True end) fields ->
+  write_inner env here fields = Ok ms ->
+  read_inner env here ms = Ok (norm_inner env here fields) ->
+  forall f s, In f fields -> f = NF (nf_prop f) (Some s) -> tree_rt s = true.
+Proof.
+  induction fields as [|[d [s|]] r IH]; intros ms HQ Hw Hr f s0 Hin Hf.
+  - destruct Hin.
+  - inversion HQ as [|? ? Hs Hrest]; subst.
+    cbn [write_inner] in Hw. destruct (kind_matches (ns_kind s) (item_ty d)); [|discriminate].
+    apply obind_ok in Hw as [m [Hm Hw]]. apply obind_ok in Hw as [ms' [Hms Hw]]. inversion Hw; subst ms.
+    cbn [read_inner norm_inner] in Hr. fold (read_inner env here) in Hr.
+    destruct (read_tree env here m) as [t| | |] eqn:Et; cbn [obind] in Hr; try discriminate.
+    destruct (read_inner env here ms') as [ts| | |] eqn:Ets; cbn [obind] in Hr; try discriminate.
+    injection Hr as Ht Hts.
+    destruct Hin as [Heq|Hin].
+    + subst f. cbn [nf_prop] in Hf. injection Hf as Hss. subst s0.
+      apply (Hs here (inner_name d s) m Hm). rewrite Et, Ht. reflexivity.
+    + apply (IH ms' Hrest Hms) with (f := f); [rewrite Ets, Hts; reflexivity|exact Hin|exact Hf].
+  - inversion HQ as [|? ? _ Hrest]; subst. cbn [write_inner] in Hw. cbn [norm_inner] in Hr.
+    destruct Hin as [Heq|Hin].
+    + subst f. cbn [nf_prop] in Hf. discriminate Hf.
+    + exact (IH ms Hrest Hw Hr f s0 Hin Hf).
+Qed.
+
+Theorem c04_tree_only_if : forall s, reads_back_only_if s.
+Proof.
+  apply nschema_ind'. intros k on desc fields HQ path name m Hw Hr.
+  rewrite write_schema_eq in Hw. apply obind_ok in Hw as [o [Ho Hw]]. apply obind_ok in Hw as [ms [Hms Hw]].
+  inversion Hw; subst m. rewrite read_tree_eq in Hr.
+  assert (Hn : ro_name o = name).
+  { unfold write_root in Ho. apply obind_ok in Ho as [os [_ Ho']]. inversion Ho'. reflexivity. }
+  destruct (read_root env o) as [r| | |] eqn:Er; cbn [obind] in Hr; try discriminate.
+  rewrite Hn in Hr.
+  destruct (read_inner env (path ++ [name]) ms) as [ts| | |] eqn:Ets; cbn [obind] in Hr; try discriminate.
+  rewrite norm_schema_eq in Hr. injection Hr as Hk Hd Hp Hts.
+  assert (Hroot : rt_root (RD k name desc (map (resolve (path ++ [name])) fields)) = true).
+  { apply (c04_root_exact env _ o Hstd Ho). rewrite Er. unfold norm_root, norm_object. cbn [rd_kind rd_name rd_desc rd_props].
+    assert (Hrn : rr_name r = name).
+    { unfold read_root in Er. destruct (ro_msgopt o); [|discriminate].
+      apply obind_ok in Er as [ps [_ Er']]. inversion Er'. cbn [rr_name]. exact Hn. }
+    destruct r as [rk rn rd rp]. cbn [rr_kind rr_name rr_desc rr_props] in *. subst. reflexivity. }
+  unfold rt_root in Hroot. cbn [rd_desc rd_props] in Hroot. apply andb_true_iff in Hroot as [Hdesc Hprops].
+  rewrite tree_rt_eq, Hdesc. cbn [andb].
+  apply (rt_props_inner (path ++ [name])); [exact Hprops|].
+  apply (inner_only_if (path ++ [name]) fields ms HQ Hms). rewrite Ets, Hts. reflexivity.
+Qed.
+
+Theorem c04_tree_exact s path name m :
+  write_schema env path name s = Ok m ->
+  (read_tree env path m = Ok (norm_schema env path name s) <-> tree_rt s = true).
+Proof.
+  intro Hw. split.
+  - exact (c04_tree_only_if s path name m Hw).
+  - intro H. exact (c04_tree s path name m H Hw).
+Qed.
+
 End Tree.
